@@ -16,3 +16,5 @@ func variantOpts(c *caseSpec) []Option {
 	}
 	return opts
 }
+
+func variantToggles(c *caseSpec) []Option { return []Option{Memoize(!c.memo), Debug(!c.dbg)} }
